@@ -174,7 +174,8 @@ func (p Path) Eval(target dom.Container) (dom.NodeList, dom.Node) {
 			if !curr.IsContainer() {
 				return res, nil
 			} else {
-				curr = curr.(dom.Container).Child(string(ps))
+				// a reference token names a member as it is spelled (RFC 6901): no list sugar such as "name[1]" here
+				curr = curr.(dom.Container).Children()[string(ps)]
 				if curr == nil {
 					return res, nil
 				}
